@@ -24,11 +24,14 @@ use crate::model;
 
 pub trait El: MatrixElement + PartialOrd + Debug + 'static {
     const NAME: &'static str;
+    /// a value no menu cell exceeds (written into the alignment padding by `fill`)
+    const TOP: Self;
     fn to_json(&self) -> Value;
     fn from_json(v: &Value) -> Self;
 }
 impl El for f32 {
     const NAME: &'static str = "f32";
+    const TOP: f32 = f32::MAX;
     fn to_json(&self) -> Value {
         model::f32_to_json(*self)
     }
@@ -38,6 +41,7 @@ impl El for f32 {
 }
 impl El for u8 {
     const NAME: &'static str = "u8";
+    const TOP: u8 = 255;
     fn to_json(&self) -> Value {
         json!(*self)
     }
@@ -216,7 +220,8 @@ pub trait Runner<T: El> {
 
 thread_local! {
     /// When set, score matrices are built in a buffer that previously held 3 more rows filled with
-    /// the planted peak value (a reused, shrunk buffer): rows past the logical end must be invisible.
+    /// the planted peak value (a reused, shrunk buffer) and whose storage - alignment padding included -
+    /// was then `fill`ed with the largest value: rows past the logical end and padding must be invisible.
     static SHRUNK: std::cell::Cell<bool> = const { std::cell::Cell::new(false) };
 }
 
@@ -229,6 +234,9 @@ fn build<T: El, C: PositiveLength>(plan: &Plan<T>, bg: &dyn Fn(usize, usize, usi
             None => cell(plan, bg, r.min(plan.rows.saturating_sub(1)), c, cols),
         });
         s.resize(plan.rows, plan.rows * cols);
+        // DenseMatrix::fill writes the alignment padding of every row too (column counts that are not a
+        // multiple of the alignment): padding is not a cell and must be invisible to max / argmax / threshold
+        s.matrix_mut().fill(T::TOP);
         for r in 0..plan.rows {
             for c in 0..cols {
                 s.matrix_mut()[MatrixCoordinates::new(r, c)] = cell(plan, bg, r, c, cols);
